@@ -223,6 +223,18 @@ struct Builder {
       if (k != n) bad("iteration visited " + std::to_string(k) + " elements, size() is " + std::to_string(n));
       if (!(s.position(n) == e)) bad("position(size()) != end()");
       if (!(s.position(0) == s.begin())) bad("position(0) != begin()");
+      // an iterator is a (sequence, position) pair: positions of another sequence are different iterators, also at equal indices
+      {
+         struct Other final : Sequence<T> {
+            std::size_t n;
+            explicit Other(std::size_t k) : n(k) { }
+            std::size_t size() const final { return n; }
+            const T& get(std::size_t) const final { throw std::domain_error("harness sequence"); }
+         } other{n};
+         if (s.begin() == other.begin() || !(s.begin() != other.begin())) bad("begin() of two different sequences compare equal");
+         if (s.end() == other.end() || !(s.end() != other.end())) bad("end() of two different sequences of equal size compare equal");
+         if (n > 1 && s.position(1) == other.position(1)) bad("position(1) of two different sequences compare equal");
+      }
       // the iterator algebra, each operation against positional access: ++it, it++, --it, it--, ->, ==, !=
       {
          std::vector<std::size_t> ks;
